@@ -118,6 +118,12 @@ contract(CONN + '._receive_data_frame', props=['C04', 'C05', 'C16', 'C17', 'C20'
              ('accepted-only-in-body-states', 'implies(accepted_data(result), exists and %s == K_OK)' % ('old(' + FKIND('R_DATA') + ')'), ['C06', 'C07']),
              ('stream-ended-linked', 'implies(accepted_data(result) and es, len(result[1]) == 2 and class_name(result[1][1]) == "StreamEnded" and result[1][0].stream_ended is result[1][1])', ['C07']),
              ('no-end-without-flag', 'implies(accepted_data(result) and not es, len(result[1]) == 1 and result[1][0].stream_ended is None)', ['C07']),
+             # C16: the body counter counts DATA payload only (padding excluded), never overruns the declared
+             # length, and equals it when the message ends here
+             ('body-counts-payload-only', 'implies(accepted_data(result), %s._actual_content_length == old(%s._actual_content_length) + len(frame.data))' % (FSID, FSID), ['C16']),
+             ('body-within-declared-length', 'implies(accepted_data(result), %s._expected_content_length is None or %s._actual_content_length <= %s._expected_content_length)' % (FSID, FSID, FSID), ['C16']),
+             ('ended-message-has-declared-length', 'implies(accepted_data(result) and es, %s._expected_content_length is None or %s._actual_content_length == %s._expected_content_length)' % (FSID, FSID, FSID), ['C16']),
+             ('declared-length-kept', 'implies(accepted_data(result), %s._expected_content_length == old(%s._expected_content_length))' % (FSID, FSID), ['C16']),
              ('refused-data-is-acknowledged-for-the-user', 'implies(not accepted_data(result), WM_INV(%s, g_conn))' % CM, ['C05', 'C20'], 'WM_INV(%s, g_conn)' % CM),
              ('accepted-data-is-outstanding', 'implies(accepted_data(result), WM_INV(%s, g_conn + fcl) and WM_INV(%s, g_stream + fcl))' % (CM, SWM), ['C05'], 'WM_INV(%s, g_conn) and exists and WM_INV(%s, g_stream)' % (CM, SWM)),
              ('auto-ack-window-update', 'implies(not accepted_data(result), len(result[0]) <= 2 and implies(len(result[0]) == 2, class_name(result[0][0]) == "WindowUpdateFrame" and result[0][0].stream_id == 0 and result[0][0].window_increment == %s.current_window_size - (cw - fcl) and result[0][0].window_increment >= 1) and implies(len(result[0]) == 1, %s.current_window_size == cw - fcl))' % (CM, CM), ['C05', 'C20', 'C04']),
@@ -126,7 +132,9 @@ contract(CONN + '._receive_data_frame', props=['C04', 'C05', 'C16', 'C17', 'C20'
     raises=[dict(exc='FlowControlError', props=['C04', 'C18'],
                  when='fcl > cw or (exists and %s == K_OK and fcl > %s.current_window_size)' % (FKIND('R_DATA'), SWM),
                  ensures=[('code', 'exc.error_code == FLOW_CONTROL_ERROR', ['C18', 'C04'])]),
-            dict(exc='InvalidBodyLengthError', props=['C16']),
+            dict(exc='InvalidBodyLengthError', props=['C16'],
+                 when='exists and %s._expected_content_length is not None and (%s._actual_content_length + len(frame.data) > %s._expected_content_length or (es and %s._actual_content_length + len(frame.data) != %s._expected_content_length))' % ((FSID,) * 5),
+                 ensures=PEER_ERR),
             dict(exc='NoSuchStreamError', label='NoSuchStreamError(idle)', props=['C06'],
                  when='not exists and sid > watermark(self, sid)', ensures=PEER_ERR),
             dict(exc='ProtocolError', props=['C17', 'C06'],
